@@ -137,6 +137,20 @@ def structured_cases(r):
     case(["kadd n=aa k=11 kl=32 h=22", "kadd n=bb k=11 kl=32 h=23", newc(r, "A", **base), "mkt A iv=01 j=0", "kdel n=aa", "mkt A iv=01 j=1",
           newc(r, "B", **base), "unl B $0", "unl B $1", "kdel n=bb", "unl B $1", "mkt A iv=02 j=2"])
     case(tk + [newc(r, "B", v=33, s="c02f", e=1), "flag B R0", "unl B $0", newc(r, "C", v=33, s="c02b", e=1), "unl C $0"])
+    # 10b application ticket callback (matrixSslSetSessionTicketCallback): verdict scripts x key in list / never reloaded /
+    # deleted meanwhile, each followed by resumption attempts (two per script so that two-letter scripts are consumed)
+    for script in ("a", "r", "ra", "ar", "l", "w", "rl", "lr"):
+        for keystate in ("inlist", "deleted", "deleted-between", "otherkey"):
+            ops = ["kadd n=aa k=11 kl=32 h=22", "kadd n=bb k=33 kl=32 h=44", newc(r, "A", v=33, s="c02f", e=1, m="a1"), "mkt A iv=07 j=0"]
+            if keystate == "deleted": ops.append("kdel n=aa")
+            ops.append("cb %s k=%s h=22" % (script, "99" if keystate == "otherkey" else "11"))
+            if keystate == "otherkey": ops.append("kdel n=aa")          # the callback can only supply a key of the same name with other material
+            ops += [newc(r, "B", v=33, s="c02f", e=1), "unl B $0", "chr B", "del B"]
+            if keystate == "deleted-between": ops.append("kdel n=aa")
+            ops += [newc(r, "C", v=33, s="c02f", e=1), "unl C $0", "chr C", "del C", "cb -", newc(r, "D", v=33, s="c02f", e=1), "unl D $0", "chr D"]
+            case(ops)
+    case(["kadd n=aa k=11 kl=32 h=22", newc(r, "A", v=33, s="c02f", e=1, m="a1"), "mkt A iv=07 j=0", "cb r", newc(r, "B", v=33, s="c02f", e=1),
+          "unl B $0:t127", "unl B $0:x3.01", "unl B -", "cb a", "unl B $0:x40.01", "unl B $0"])
     # 11 TLS 1.3 decrypted-ticket parameters: age around the sealed lifetime, negative age, saturation, version / suite mismatch
     ages = [0, 1, 999, 1000, 359000, 359999, 360000, 360999, 361000, 2**31 - 1, 2**31, 2**32 - 1, 2**32, 2**33 + 7]
     ops = ["tick %d" % (2**34), newc(r, "A", v=34, s="1301", e=1)]
@@ -223,8 +237,10 @@ def random_case(r, nops):
             ops.append("tick %d" % r.choice([1, 1000, 3600000, LIFE // 2, LIFE - 1, LIFE, LIFE + 1, 2**31 - LIFE, 2**31, 2**32 - LIFE // 2]))
         elif k < 0.93:
             ops.append("kadd n=%02x k=%02x kl=%d h=%02x" % (r.choice([0xaa, 0xbb, 0xcc]), r.randrange(256), r.choice([16, 32, 32, 24]), r.randrange(256))); keys += 1
-        elif k < 0.945:
+        elif k < 0.94:
             ops.append("kdel n=%02x" % r.choice([0xaa, 0xbb, 0xcc]))
+        elif k < 0.95:
+            ops.append("cb %s k=%02x h=%02x" % (r.choice(["a", "r", "ra", "l", "w", "-", "rl"]), r.randrange(256), r.randrange(256)))
         elif k < 0.97:
             ops.append("mkt %s iv=%02x j=%d" % (x, r.randrange(256), tix % 16)); tix += 1
         else:
@@ -274,6 +290,8 @@ def lifecycle_case(r, nsteps):
             ops.append("del " + x); phase[x] = None
         if r.random() < 0.08:
             ops.append("tick %d" % r.choice([1000, 3600000, LIFE // 2, LIFE, LIFE + 1, 2**31, 2**32 - LIFE // 2]))
+        if tix and r.random() < 0.04:
+            ops.append("cb %s" % r.choice(["a", "r", "ra", "ar", "-", "-"]))
     return "c " + " ; ".join(ops)
 
 def fill_case(r, n):
@@ -312,6 +330,7 @@ class Spec:
     def __init__(self):
         self.now = 1000000; self.issued = {}; self.holds = {}; self.cfg = {}; self.tickets = {}; self.tbank = {}; self.keys = []
         self.presented = {}
+        self.cb = None; self.cb_pos = 0; self.cb_calls = 0
 
     def check_case(self, ck, case, out, harness):
         """returns number of resumption decisions checked"""
@@ -395,6 +414,9 @@ class Spec:
                           "tls13ValidateSessionParams accepted ticket parameters that are %s" % ("%d ms old with a sealed lifetime of %d s" % (age, life) if (age // 1000 > life or age < 0) else "of another version / suite"),
                           case, " ".join(a), d, harness, "handshake_failure")
             return 1
+        if op == "cb":
+            self.cb = None if a[1].startswith("-") else a[1][:31]; self.cb_pos = 0; self.cb_calls = 0
+            return 0
         if op == "kadd":
             if d["rc"] == 0: self.keys.append(a[1].split("=")[1])
             return 0
@@ -414,7 +436,22 @@ class Spec:
             if spec[0].startswith("$"): tk = apply_edits_ticket(self.tbank.get(int(spec[0][1:]) & 15, b""), spec[1:])
             elif spec[0] == "-": tk = b""
             else: tk = apply_edits_ticket(bytes.fromhex(spec[0]), spec[1:])
+            verdict = None
+            if self.cb:
+                mc = re.search(r" C(\d+):(-?\d+)", d["raw"]); calls = int(mc.group(1)) if mc else self.cb_calls
+                if calls > self.cb_calls:                       # the library consulted the application for this ticket
+                    verdict = self.cb[self.cb_pos]
+                    if self.cb_pos + 1 < len(self.cb): self.cb_pos += 1
+                self.cb_calls = calls
+                mk = re.search(r" K\[([^\]]*)\]", d["raw"])    # the callback may have loaded keys
+                if mk: self.keys = [e.split("/")[0] for e in mk.group(1).split(",") if e]
+                ck.count("unl-cb:%s:%s" % (verdict, "ok" if d["rc"] == 0 else "refused"))
             if d["rc"] != 0: return 1
+            if self.cb and verdict is None:
+                self.viol(ck, "unlocked-ticket-callback-bypassed", "a ticket callback is registered but matrixUnlockSessionTicket honoured a ticket without consulting it", case, " ".join(a), d, harness, "callback consulted")
+            if verdict == "r":
+                self.viol(ck, "unlocked-ticket-callback-rejected", "matrixUnlockSessionTicket honoured a ticket although the application's ticket callback returned < 0 for its key (key rejected / rotated out)",
+                          case, " ".join(a), d, harness, "ticket refused")
             rec = self.tickets.get(tk); cfg = self.cfg[x]; why = None
             if rec is None: why = ("ticket-forged", "a ticket this server never issued (edited / truncated / extended / foreign)")
             elif rec["key"] not in self.keys: why = ("ticket-key-gone", "a ticket sealed under a key that is no longer in the server's key list")
@@ -555,6 +592,15 @@ def live_scripts():
     L("id-ems", "new cv=3 sv=3 seed=1 ; hs ; markfirst ; res? ; closeall ; new cv=3 sv=3 ems=-1 resume=1 seed=2 keepkeys=1 ; hs ; res?")
     L("ticket-rotated-out", "new cv=3 sv=3 ticket=1 seed=1 ; hs ; markfirst ; res? ; closeall ; rekey add=77 ; rekey delfirst ; new cv=3 sv=3 ticket=1 resume=1 seed=2 keepkeys=1 ; hs ; res?")
     L("ticket-rotated-kept", "new cv=3 sv=3 ticket=1 seed=1 ; hs ; markfirst ; res? ; closeall ; rekey add=77 ; new cv=3 sv=3 ticket=1 resume=1 seed=2 keepkeys=1 ; hs ; res?")
+    # application ticket callback in live sessions (server key name/material as loaded by the harness: k=5a h=a5)
+    tcbs = "new cv=3 sv=3 ticket=1 seed=1 ; hs ; markfirst ; res? ; closeall ; %snew cv=3 sv=3 ticket=1 resume=1 seed=2 keepkeys=1 ; hs ; res? ; tcb?"
+    L("ticket-cb-accept", tcbs % "tcb a ; ")
+    L("ticket-cb-reject-key-in-list", tcbs % "tcb r ; ")
+    L("ticket-cb-reject-then-accept-first", tcbs % "tcb ra ; ")
+    L("ticket-cb-load-after-delete", tcbs % "rekey add=77 ; rekey delfirst ; tcb l ; ")
+    L("ticket-cb-load-wrong-material-after-delete", tcbs % "rekey add=77 ; rekey delfirst ; tcb l k=5b ; ")
+    L("ticket-cb-reject-after-delete", tcbs % "rekey add=77 ; rekey delfirst ; tcb r ; ")
+    L("ticket-cb-wrong-name-after-delete", tcbs % "rekey add=77 ; rekey delfirst ; tcb w wn=31 ; ")
     # TLS 1.3 PSK tickets (tls13Resume.c; not modelled - judged against the spec only)
     t13 = "new cv=4 sv=4 ticket=1 seed=1 ; hs ; markfirst ; res? ; closeall ; %snew cv=4 sv=4 ticket=1 resume=1 seed=2 keepkeys=1 ; hs ; res?"
     L("tls13-psk-ok", t13 % "")
@@ -618,7 +664,7 @@ def check_live(ck, name, script, out):
     hs = [s for s in segs if s.strip().startswith("hs:")][-1].strip()
     ok_hs = hs.startswith("hs:c=1/0,s=1/0")
     ck.count("live:" + ("resumed" if sr == 1 else "full" if ok_hs else "failed"))
-    must_resume = name in ("id-ok", "ticket-ok", "ticket-rotated-kept", "tls13-psk-ok", "tls13-psk-fresh-359s", "tls13-psk-rotated-kept") or "legit" in script
+    must_resume = name in ("id-ok", "ticket-ok", "ticket-rotated-kept", "tls13-psk-ok", "tls13-psk-fresh-359s", "tls13-psk-rotated-kept", "ticket-cb-accept", "ticket-cb-load-after-delete") or "legit" in script
     if must_resume:
         if not (ok_hs and cr == 1 and sr == 1 and mseq == 1 and first == 1):
             sig = "live-" + name + "-not-resumed"
@@ -664,6 +710,7 @@ def run(ck):
     ck.assumptions += ["Hunf (ticket theorems): a MAC tag that verifies under a server key was produced by the server for exactly that byte string",
                        "the clock (psGetTime) does not go backwards within the life of the process; ticket timestamps are seconds of that clock",
                        "a connection object is created zeroed (matrixSslNewServerSession) - ONew in the model",
+                       "the application's ticket callback is an arbitrary function of (key name, found-in-list flag) returning accept / reject / load-a-key; it does not delete keys while it runs",
                        "TLS 1.3 PSK tickets: only the handling of the sealed parameters (version, suite, lifetime, issue time) in tls13ValidateSessionParams is modelled and compared; sealing (AES-GCM), PSK lookup and binders are judged by the live spec oracle only (round trip, byte edits of the ticket, wrong resumption secret, lifetime 360 s, key rotation)"]
     R = ck.build_repo()
     have_ref = "sessionCacheRef" in open(os.path.join(R, "matrixssl/matrixssllib.h")).read()
@@ -690,7 +737,7 @@ def run(ck):
     nchecked = len(cases)                     # cases above follow realistic connection lifecycles: also judged by the spec oracle
     for _ in range(ck.budget(120, 4000)):
         cases.append(random_case(r, r.choice([12, 25, 40, 70])))   # wild sequences (objects reused after delete, ids re-parsed on holders): model correspondence only
-    ck.rules.append("operation sequences over <= 6 fabricated server connections: %d structured cases (every truncation length 1..31 of an issued id, zero-extended prefixes, one flipped bit at each of the 32 id positions, clock jumps LIFE-1/LIFE/LIFE+1 and around 2^31/2^32 ms, 20 version x EMS combinations, fatal alerts on registrant / on a resumed sharer / error flag at close followed by replays, SHARED entries (2 or 3 connections - registrant + resumed - holding one entry) x the event hitting each of them (fatal alert sent, fatal alert received / local error then delete, error seen by an update while open, plain close) x every delete order of the others, with resume attempts while the others are open, after each close and after all closed, cache filled to 31/32/33/40 sessions with the first one open or closed, all slots in use, double and unheld releases, client-chosen ids on ticket-resumed and TLS 1.3 connections, ticket round trip / sampled byte edits / truncation / extension / foreign key / expiry at the second / key rotation and deletion) + interleaved realistic connection lifecycles over six connection objects (20-110 ops: hello with an id from a bank of issued ids - possibly truncated, flipped, zero-extended - or with a ticket and a foreign id, full handshake, optional fatal alert, close; clock jumps) + fill runs of 35-80 sessions with interleaved resumptions (these three groups are also judged by the spec oracle) + wild random sequences (objects reused after delete, ids re-parsed on holders; model correspondence only); a case is non-trivial when at least one resumption decision is taken" % nstruct)
+    ck.rules.append("operation sequences over <= 6 fabricated server connections: %d structured cases (every truncation length 1..31 of an issued id, zero-extended prefixes, one flipped bit at each of the 32 id positions, clock jumps LIFE-1/LIFE/LIFE+1 and around 2^31/2^32 ms, 20 version x EMS combinations, fatal alerts on registrant / on a resumed sharer / error flag at close followed by replays, SHARED entries (2 or 3 connections - registrant + resumed - holding one entry) x the event hitting each of them (fatal alert sent, fatal alert received / local error then delete, error seen by an update while open, plain close) x every delete order of the others, with resume attempts while the others are open, after each close and after all closed, cache filled to 31/32/33/40 sessions with the first one open or closed, all slots in use, double and unheld releases, client-chosen ids on ticket-resumed and TLS 1.3 connections, ticket round trip / sampled byte edits / truncation / extension / foreign key / expiry at the second / key rotation and deletion, application ticket callback with 8 verdict scripts (accept, reject, reject-then-accept, load-when-not-found, load-wrong-name ...) x key in list / deleted / deleted between attempts / same name other material) + interleaved realistic connection lifecycles over six connection objects (20-110 ops: hello with an id from a bank of issued ids - possibly truncated, flipped, zero-extended - or with a ticket and a foreign id, full handshake, optional fatal alert, close; clock jumps) + fill runs of 35-80 sessions with interleaved resumptions (these three groups are also judged by the spec oracle) + wild random sequences (objects reused after delete, ids re-parsed on holders; model correspondence only); a case is non-trivial when at least one resumption decision is taken" % nstruct)
     rc, impl, err = ck.run_lines(h_toy, cases)
     rc2, model, err2 = ck.run_lines(drv, cases)
     if rc != 0: ck.notes.append("h_cache (toy) exit code %d: %s" % (rc, err[-300:]))
